@@ -141,6 +141,17 @@ func (t *c17Payloads) observeRequest(s *c17Seen, rtErr error, d *c17ReqDef) c17R
 					}
 				}
 			}
+			if len(v) == 0 {
+				// no bytes: reads as an empty payload of the definition under the formats whose stock
+				// decoder turns nothing into nothing (base64url of nothing is nothing as well)
+				for _, id := range cands {
+					if b, _, ok := t.get(id); ok && len(b) == 0 {
+						for _, z := range c17EmptyInverts() {
+							qv.Enc = append(qv.Enc, fmt.Sprintf("%d/%s/0", z, id), fmt.Sprintf("%d/%s/1", z, id))
+						}
+					}
+				}
+			}
 			e.Vals = append(e.Vals, qv)
 		}
 		obs.Query = append(obs.Query, e)
